@@ -705,8 +705,11 @@ def main(argv_tier=None, replay_path=None):
             d["param_B"] = 1
         if "param_identifier_size" in d:
             d["param_identifier_size"] = 16         # keeps the chance-occurrence bound below 2^-40 with this many identifiers
+        # (CT14 / ANSS16 / DP17 store long concatenations: at 2^12 postings one record is 25 - 47 MB and TLC needs minutes
+        # for it; they stay at 2^10 in both tiers)
+        np_s = npool if s.startswith("CJJ14") else 1024
         for fresh2 in (False, True):
-            jobs.append({"scheme": s, "gi": -3, "cfg": d, "p": [npool // 16] * 16, "sh": False, "src": "pool", "fresh2": fresh2,
+            jobs.append({"scheme": s, "gi": -3, "cfg": d, "p": [np_s // 16] * 16, "sh": False, "src": "pool", "fresh2": fresh2,
                          "idsz": 16})
     if tr == "thorough":
         # larger databases (the sizes of the repository's own tests, scaled down), 16-byte identifiers to keep the chance bound
